@@ -399,7 +399,7 @@ inductive Ev where
   | snapshot (src : SiteId) (cmds : List Cmd) (arg : CommitArg)  -- … commits one snapshot unit
   | book (src : SiteId) (b : Bookkeeping)                   -- … writes one bookkeeping command
   | toolRaw (src : SiteId) (isTxn : Bool) (cmds : List Cmd) -- … writes something outside the vocabulary (never, in a good run)
-  | restart (src : SiteId) (p : Nat)                        -- the syncer of the link from `src` restarts / reconnects and resumes at block `p`
+  | restart (src : SiteId) (p : Nat) (seq : Nat)            -- the syncer of the link from `src` restarts / reconnects: it resumes at block `p`, numbering its next unit `seq`
 
 /-- run `cmds` at site `s` as one execution and append what it propagates -/
 def execAt (cfg : WCfg) (w : World) (s : SiteId) (isTxn : Bool) (cmds : List Cmd) (tag : Tag) : World :=
@@ -472,13 +472,16 @@ def stepWorld (cfg : WCfg) (w : World) : Ev → World
     execAt cfg w src.other false [bk.toCmd] .book
   | .toolRaw src isTxn cmds =>
     execAt cfg w src.other isTxn cmds .book
-  | .restart src p =>
-    -- a restarted (or reconnected) syncer resumes behind the last unit it committed — anywhere from
-    -- there up to where it had read — with a fresh parser (unit numbering continues from the
-    -- records) and its stop, if any, forgotten
+  | .restart src p seq =>
+    -- a restarted (or reconnected) syncer resumes at ANY block it had already reached — behind the
+    -- last unit it committed (sync mode: the commit records say exactly that) or BEFORE it
+    -- (pipeline / parallel mode resume at the contiguous frontier: units committed beyond it are
+    -- read and committed again) — with a fresh parser, the unit numbering its start point gives,
+    -- and its stop, if any, forgotten
     let l := w.link src
-    if l.cpos ≤ p ∧ p ≤ l.pos then
-      w.setLink src { l with pos := p, pst := { seq := l.pst.seq, prevOff := streamOff (w.site src).stream p }, halted := none }
+    if p ≤ l.pos then
+      w.setLink src { l with pos := p, cpos := min l.cpos p,
+                             pst := { seq := seq, prevOff := streamOff (w.site src).stream p }, halted := none }
     else w
 
 def runWorld (cfg : WCfg) : World → List Ev → World
